@@ -226,7 +226,7 @@ func cmdCheck(args []string) int {
 		reason := "obligation not discharged (" + r.R.Status + ")"
 		if r.R.Status == "sat" {
 			reason = "obligation refuted"
-			if rep := tryReplay(g, r, replayDir); rep != nil {
+			if rep := safeReplay(func() *ReplayResult { return tryReplay(g, r, replayDir) }); rep != nil {
 				confirmed = rep.Confirmed
 				detail += "\n--- replay ---\n" + rep.Log
 			}
@@ -235,7 +235,7 @@ func cmdCheck(args []string) int {
 			// no model (quantified context), or the model did not replay: search a candidate input
 			// with the quantified facts relaxed and try it on the real code
 			nWitness++
-			if rep := replayObligation(g, r, true); rep != nil {
+			if rep := safeReplay(func() *ReplayResult { return replayObligation(g, r, true) }); rep != nil {
 				if rep.Confirmed {
 					confirmed = true
 					reason += "; failing input found by relaxed witness search and confirmed on the real code"
